@@ -117,6 +117,17 @@ def case_pipeline(case):
         fb, vb = K(mI, Tcp, cv, **kw)(Tx)
         r.close("kriging field: anisotropic model at x == isotropic model at T x", fa, fb, rtol=1e-8, atol=1e-9, **extra)
         r.close("kriging variance: anisotropic model at x == isotropic model at T x", va, vb, rtol=1e-8, atol=1e-9, **extra)
+    elif pipe == "Universal":
+        # drift functions live in field coordinates: for the isotropic twin they are composed with the inverse transform
+        fns = [lambda *p: 1.0 * p[0], lambda *p: p[-1] * p[-1] + 0.5 * p[0]]
+        back = lambda *q: og.anisometrize(d, ang, anis, np.array([np.ravel(c) for c in q]))
+        gns = [lambda *q: fns[0](*back(*q)), lambda *q: fns[1](*back(*q))]
+        fa, va = gs.krige.Universal(mA, cp, cv, fns)(x)
+        fb, vb = gs.krige.Universal(mI, Tcp, cv, gns)(Tx)
+        r.close("universal kriging field: anisotropic model with drift f at x == isotropic model with drift f o T^-1 at T x", fa, fb, rtol=1e-7, atol=1e-8, **extra)
+        r.close("universal kriging variance: anisotropic model with drift f at x == isotropic model with drift f o T^-1 at T x", va, vb, rtol=1e-7, atol=1e-8, **extra)
+        fc_, vc_ = gs.krige.Universal(mA, cp, cv, fns)(x, chunk_size=3)
+        r.close("universal kriging with drift functions independent of chunk_size", fc_, fa, rtol=1e-10, atol=1e-12, **extra)
     elif pipe == "CondSRF":
         ka = gs.krige.Ordinary(mA, cp, cv)
         kb = gs.krige.Ordinary(mI, Tcp, cv)
@@ -233,14 +244,14 @@ def run(chk):
         sel = A[:: max(1, len(A) // (6 if tier == "quick" else 40))]
         for ang in sel:
             for anis in anis_sets(d, tier)[:: (1 if d == 2 else 5 if d == 3 else 1)]:
-                for pipe in ["SRF", "Simple", "Ordinary", "CondSRF"] + (["Fourier"] if d <= 3 else []):
+                for pipe in ["SRF", "Simple", "Ordinary", "Universal", "CondSRF"] + (["Fourier"] if d <= 3 else []):
                     for cls in ["Exponential", "Gaussian"]:
                         if d == 4 and cls == "Gaussian":
                             continue
                         pcases.append({"dim": d, "angles": ang, "anis": anis, "pipe": pipe, "cls": cls, "len_scale": 2.0 if cls == "Exponential" else 1.2})
     chk.run("matrix", case_matrix, mcases, rule="dim 1-4 x all angle tuples from {0, +-pi/2, pi, pi/6, 1, 2.5, generic}^m (m=1,3; dim 4: all tuples with <= 3 non-zero of 6 angles) x anisotropy from {1, .5, .1, 3}^(d-1): rotation / stretching matrices against the documented Givens recipe", chunk=200)
     chk.run("model", case_model, modcases, rule="CovModel.isometrize / anisometrize / main_axes / len_scale_vec / cov_spatial along rotated main axes, len_scale list forms", chunk=50)
-    chk.run("pipeline", case_pipeline, pcases, rule="SRF (unstructured, structured), Fourier SRF, Simple / Ordinary kriging, CondSRF: anisotropic rotated model at x vs isotropic model at the oracle-transformed positions (same seed)")
+    chk.run("pipeline", case_pipeline, pcases, rule="SRF (unstructured, structured), Fourier SRF, Simple / Ordinary / Universal kriging (drift functions composed with the inverse transform), CondSRF: anisotropic rotated model at x vs isotropic model at the oracle-transformed positions (same seed)")
     hcases = []
     for d in (2, 3, 4):
         n = og.n_angles(d)
@@ -257,4 +268,4 @@ def run(chk):
                         continue
                     hcases.append({"dim": d, "from": a0, "to": a1, "order": order, "cls": cls})
     chk.run("history", case_history, hcases, rule="dim 2-4 x every ordered pair of settings from {isotropic, generic anisotropic+rotated, rotated only, anisotropic only} x order of the in-place assignments {angles then anis, anis then angles, angles + len_scale list, mixed}: the model is used (transforms, SRF, kriging) under the first setting and changed in place; transforms, covariance, SRF (after model re-assignment) and kriging (after set_condition) follow the new setting", chunk=8)
-    chk.assume("angles and ratios are finite alphabets (all multiples of pi/2 up to pi, three generic values, seed-selected generic values); universal kriging is excluded from the pipeline equivalence because its drift functions are evaluated in field coordinates by design")
+    chk.assume("angles and ratios are finite alphabets (all multiples of pi/2 up to pi, three generic values, seed-selected generic values); universal kriging enters the pipeline equivalence with drift functions that are composed with the inverse transform for the isotropic twin (they are evaluated in field coordinates by design)")
